@@ -32,6 +32,7 @@ def count(ctx, trace):
 
     def bump(k):
         sit[k] = sit.get(k, 0) + 1
+    after_failed_commit = {}
     with open(trace) as f:
         f.readline()
         for l in f:
@@ -40,6 +41,7 @@ def count(ctx, trace):
             e = json.loads(l)
             op = e['op']
             if op == 'reset':
+                after_failed_commit = {}
                 bump('scenario ' + e['kind'] + '/' + e['pol'])
                 continue
             ctx.cov['per_op'][op] = ctx.cov['per_op'].get(op, 0) + 1
@@ -48,6 +50,14 @@ def count(ctx, trace):
                     bump('direct write on one member')
                 continue
             msg = e.get('msg', '')
+            if any(e.get('wf', ())) and op in ('Write', 'Close', 'Commit', 'Cancel'):
+                bump('upload: %s failed on one member alone%s' % (op, '' if e['ok'] else ' and the call failed'))
+            elif op == 'Commit' and e['ok'] and after_failed_commit.get((e['r'], e['u'])):
+                bump('upload: Commit repeated on the same unified writer after a one-sided failure succeeded')
+            if op == 'Commit':
+                after_failed_commit[(e['r'], e['u'])] = any(e.get('wf', ())) and not e['ok']
+            if op == 'Referrers' and e['ok'] and len({d['mt'] for d in e.get('descs', [])}) > 1:
+                bump('referrers listed under different media types')
             if any(e.get('wf', ())):
                 bad = 0 if e['wf'][0] else 1
                 bump('%s with a member failing by itself, answering %s' % (
@@ -116,11 +126,12 @@ def run(ctx):
                 ('OciUnifyMC_view_mediatypes.cfg', 'pairs of member states in which a manifest (and the tag on it) is stored under two different media types'),
                 ('OciUnifyMC_view_faults.cfg', 'the 49 x 49 pairs with a faulty lister on either side (error after 1 item; NAME_UNKNOWN at once): merge rules for errors'),
                 ('OciUnifyMC_view_2repos.cfg', '81 x 81 pairs over two repositories (known to none/one/both), mounts through the unifier, merged repository listings'),
+                ('OciUnifyMC_repl_faults.cfg', 'histories of 5 writes through the unifier in which any replicated write or upload-writer call (Write, Close, Commit, Cancel) may fail on one member alone and be repeated'),
                 ('OciUnifyMC_repl_thorough.cfg', 'all histories of 7 writes from equal members, 2 manifests, two upload sessions')):
             once_more(vlib.model_check, ctx, 'OciUnifyMC.tla', cfg, workers=MCW, timeout=900, what=what)
     td = ctx.sub('traces')
     traces = []
-    nfiles, per = (4, 6) if quick else (16, 30)
+    nfiles, per = (4, 5) if quick else (16, 30)
     for i in range(nfiles):
         t = os.path.join(td, 'unify%d.ndjson' % i)
         run_unify(ctx, vh, t, n=per, seed=ctx.seed * 1000 + i)
@@ -133,7 +144,7 @@ def run(ctx):
     for t in traces:
         count(ctx, t)
     sit = ctx.cov['situations']
-    for need in ('listing ok with 5 or more merged entries (ListTags)', 'listing ok with 5 or more merged entries (ListRepos)', 'listing ok with 5 or more merged entries (Referrers)', 'PushBlob with a member failing by itself, answering after the healthy member', 'PushBlob with a member failing by itself, answering first', 'tag read: conflict reported', 'write refused because one member failed', 'listing: unknown to both', 'resume ok'):
+    for need in ('upload: Commit repeated on the same unified writer after a one-sided failure succeeded', 'upload: Write failed on one member alone and the call failed', 'referrers listed under different media types', 'listing ok with 5 or more merged entries (ListTags)', 'listing ok with 5 or more merged entries (ListRepos)', 'listing ok with 5 or more merged entries (Referrers)', 'PushBlob with a member failing by itself, answering after the healthy member', 'PushBlob with a member failing by itself, answering first', 'tag read: conflict reported', 'write refused because one member failed', 'listing: unknown to both', 'resume ok'):
         if not sit.get(need):
             raise vlib.Machinery('the batch never reached the situation %r' % need)
     ctx.cov['samples'] = [dict(recorded_events=samples(traces[0]))]
@@ -144,7 +155,7 @@ def run(ctx):
                         'digest<->content mapping and manifest rendering by the harness; TLC and the Json/IOUtils community modules']
     return vlib.finish(ctx, rule='each scenario writes the two members directly (item by item to both / one / the other; the same tag to the same or '
                        'different manifests; one member left empty), then reads and lists everything through the unifier, then writes through it '
-                       '(pushes, deletes, mounts, chunked uploads closed and resumed at right/wrong offsets; a separate family over 8 repositories / 8 tags / 8 referrers of one subject in which each listing kind has at least two entries private to each member, interleaved in sort order, members in both orders; replicated writes during which one member - either, answering before or after the healthy one - fails by itself), under both read policies; every call is '
+                       '(pushes, deletes, mounts, chunked uploads closed and resumed at right/wrong offsets; a separate family over 8 repositories / 8 tags / 8 referrers of one subject in which each listing kind has at least two entries private to each member, interleaved in sort order, members in both orders; the same digest held by both members under different media types (referrers, tags); calls of the upload writer of one member (Write, Close, Commit, Cancel) failing once and repeated on the same unified writer; replicated writes during which one member - either, answering before or after the healthy one - fails by itself), under both read policies; every call is '
                        'one trace event, followed by the projected state of member 0 and of member 1; TLC accepts iff each event is the step OciUnify '
                        'prescribes (same result as the combination of the two reference models\' answers; both snapshots equal the model members) and '
                        'UnionView, TagConflictNeverSilent, WriteBoth, ReadsChangeNothing, PoliciesAgree, EqualStaysEqual hold on that step')
